@@ -280,6 +280,63 @@ def rule_session_checked_unplug(ck, rid="C01.R5"):
     check_optional_attr(ck, rid, un, fl, attr="ev", deref_only=True)
 
 
+def _evse_at(s, key):
+    """canonical strings denoting `the EVSE registered under <key>`"""
+    return s in (f"self._EVSEs[{key}]", f"self._EVSEs.get({key})")
+
+
+def rule_network_transitions(ck, rid="C01.R9"):
+    """decision tables of ChargingNetwork.plugin / unplug: the EVSE-level transition happens exactly once on the path on which it is
+    due and on no other path (an unplug event that does nothing leaves the EV connected past its departure; a plug-in that does
+    nothing loses the session)."""
+    from .. import pathtab
+    repo = ck.repo
+    un = repo.fn("ChargingNetwork.unplug")
+    fl = flow_of(un)
+    st, se = un.params[1], un.params[2]
+    rows = pathtab.table(fl)
+    ck.count("decision-table rows (network plugin/unplug)", len(rows))
+
+    def is_match(k, a):
+        c = cmp_norm(a, True)
+        if not c or c[1] != "==":
+            return False
+        sides = [canon(c[0]), canon(c[2])]
+        if se not in sides:
+            return False
+        o = sides[1] if sides[0] == se else sides[0]
+        return o.endswith(".session_id") and (o[:-len(".session_id")].endswith(".ev") or o[:-len(".session_id")].endswith("._ev")) \
+            and _evse_at(o.rsplit(".", 2)[0], st)
+
+    def is_unplug(kind, k, a):
+        return kind == "call" and k.endswith(".unplug()") and _evse_at(k[:-len(".unplug()")], st)
+
+    def ev_none(k, a):
+        c = cmp_norm(a, True)
+        return bool(c) and c[1] == "is" and isinstance(c[2], ast.Constant) and c[2].value is None and \
+            canon(c[0]).rsplit(".", 1)[-1] in ("ev", "_ev") and _evse_at(canon(c[0]).rsplit(".", 1)[0], st)
+
+    matched = [r for r in rows if r.fact(is_match) is True]
+    pathtab.must_on(ck, rid, un, matched, is_unplug, 1, "EVSE.unplug() of the station whose occupant has the given session id", "unplug:due",
+                    ok="the matching session is detached exactly once")
+    others = [r for r in rows if r.fact(is_match) is False or r.fact(ev_none) is True]
+    pathtab.must_on(ck, rid, un, others, is_unplug, 0, "no EVSE.unplug() when the station is empty or holds another session", "unplug:undue",
+                    ok="a stale unplug event never detaches another session", floor=1)
+    pathtab.contradicted_membership(ck, rid, un, fl, rows, sink="unplug:membership")
+
+    pl = repo.fn("ChargingNetwork.plugin")
+    pfl = flow_of(pl)
+    ev = pl.params[1]
+    prow = pathtab.table(pfl)
+
+    def is_plug(kind, k, a):
+        return kind == "call" and k.endswith(f".plugin({ev})") and _evse_at(k[:-len(f".plugin({ev})")], f"{ev}.station_id")
+    normal = [r for r in prow if r.end != "raise"]
+    pathtab.must_on(ck, rid, pl, normal, is_plug, 1, "EVSE.plugin(ev) at the station named by ev.station_id on every normally returning path", "plugin:due",
+                    ok="a plug-in that returns has attached the EV exactly once")
+    pathtab.contradicted_membership(ck, rid, pl, pfl, prow, sink="plugin:membership")
+
+
 def find_main_loop(fl):
     for n in fl.cfg.nodes:
         if n.kind == "test" and isinstance(n.stmt, ast.While):
@@ -413,7 +470,15 @@ def run(ck):
     rule_heap_key(ck)
     rule_pairing(ck)
     rule_session_checked_unplug(ck)
+    rule_network_transitions(ck)
     rule_loop(ck)
+    # stations are looked up by station id, sessions by session id (index-domain typing of the functions on the plug/unplug path;
+    # the package-wide sweep is C10.R1)
+    from ..indexdom import check_function as index_check
+    typed = 0
+    for q in ("ChargingNetwork.plugin", "ChargingNetwork.unplug", "Simulator._process_event"):
+        typed += index_check(ck, "C01.R10", ck.repo.fn(q))[0]
+    ck.floor("C01.R10", typed, 8, "typed index sites on the plug/unplug path")
     from .c13 import rule_occupant
     rule_occupant(ck, rid="C01.R7")
     # events come out of the queue in (time, precedence) order only if the queue is a heap and is drained by popping (shared with C11)
